@@ -7,7 +7,7 @@
 //
 // Script (ndjson):
 //   reset: store (leveldb|leveldb2|leveldb3|mem), via (direct|wrapper|filer),
-//          names, expired, fresh (arrays of byte arrays), deep (bool), base (dir path)
+//          names, expired, fresh (arrays of byte arrays), deep (bool), base (dir path), slash (bool)
 //   list : api (prefixed|plain|stream|page), start, incl, limit, prefix, pattern, excl
 //          -> res, last, more, err
 //   walk : the same + mode (emitted|returned|more) -> pages[{res,last,more}], end, err
@@ -136,8 +136,32 @@ func (m *memStore) KvDelete(ctx context.Context, k []byte) error {
 }
 func (m *memStore) Shutdown() {}
 
+// ---------------------------------------------------------------- call counter in front of a real store
+// Pure delegation; it only counts listing calls so that a filer-level listing
+// that never terminates becomes an observed error instead of a hung driver.
+type countStore struct {
+	filer.FilerStore
+	calls, budget int
+}
+
+func (c *countStore) ListDirectoryEntries(ctx context.Context, dir util.FullPath, start string, incl bool, limit int64, each filer.ListEachEntryFunc) (string, error) {
+	c.calls++
+	if c.calls > c.budget {
+		return "", errBudget
+	}
+	return c.FilerStore.ListDirectoryEntries(ctx, dir, start, incl, limit, each)
+}
+func (c *countStore) ListDirectoryPrefixedEntries(ctx context.Context, dir util.FullPath, start string, incl bool, limit int64, prefix string, each filer.ListEachEntryFunc) (string, error) {
+	c.calls++
+	if c.calls > c.budget {
+		return "", errBudget
+	}
+	return c.FilerStore.ListDirectoryPrefixedEntries(ctx, dir, start, incl, limit, prefix, each)
+}
+
 // ---------------------------------------------------------------- the code under test, by configuration
 type target struct {
+	counter *countStore
 	raw     filer.FilerStore
 	wrapper *filer.FilerStoreWrapper
 	fl      *filer.Filer
@@ -178,7 +202,8 @@ func getTarget(store string) *target {
 	}
 	// no masters, nothing is dialled: NewFiler only builds the client object
 	t.fl = filer.NewFiler(nil, grpc.WithInsecure(), "localhost", 0, "", "", "", func() {})
-	t.fl.SetStore(t.raw)
+	t.counter = &countStore{FilerStore: t.raw, budget: 1 << 30}
+	t.fl.SetStore(t.counter)
 	t.wrapper = filer.NewFilerStoreWrapper(t.raw)
 	targets[store] = t
 	return t
@@ -228,12 +253,16 @@ type page struct {
 	err  string
 }
 
+// slash: the filer is asked with a trailing slash on the directory (it has to strip it)
+var slash bool
+
 func doList(t *target, via string, dir util.FullPath, r request) (p page) {
 	ctx := context.Background()
 	if t.mem != nil {
 		t.mem.calls = 0
 		t.mem.budget = 400
 	}
+	t.counter.calls, t.counter.budget = 0, 400
 	each := func(e *filer.Entry) bool {
 		d, n := e.FullPath.DirAndName()
 		if d != string(dir) {
@@ -243,6 +272,10 @@ func doList(t *target, via string, dir util.FullPath, r request) (p page) {
 		return len(p.res) < 1000
 	}
 	var err error
+	asked := dir
+	if slash {
+		asked += "/"
+	}
 	switch via + "/" + r.api {
 	case "direct/prefixed":
 		p.last, err = t.raw.ListDirectoryPrefixedEntries(ctx, dir, r.start, r.incl, r.limit, r.prefix, each)
@@ -253,10 +286,10 @@ func doList(t *target, via string, dir util.FullPath, r request) (p page) {
 	case "wrapper/plain":
 		p.last, err = t.wrapper.ListDirectoryEntries(ctx, dir, r.start, r.incl, r.limit, each)
 	case "filer/stream":
-		p.last, err = t.fl.StreamListDirectoryEntries(ctx, dir, r.start, r.incl, r.limit, r.prefix, r.pattern, r.excl, each)
+		p.last, err = t.fl.StreamListDirectoryEntries(ctx, asked, r.start, r.incl, r.limit, r.prefix, r.pattern, r.excl, each)
 	case "filer/page":
 		var es []*filer.Entry
-		es, p.more, err = t.fl.ListDirectoryEntries(ctx, dir, r.start, r.incl, r.limit, r.prefix, r.pattern, r.excl)
+		es, p.more, err = t.fl.ListDirectoryEntries(ctx, asked, r.start, r.incl, r.limit, r.prefix, r.pattern, r.excl)
 		for _, e := range es {
 			each(e)
 		}
@@ -287,6 +320,30 @@ func reqOf(e tr.Ev, via string) request {
 func putReq(e tr.Ev, r request) {
 	e["start"], e["prefix"], e["pattern"], e["excl"] = enc(r.start), enc(r.prefix), enc(r.pattern), enc(r.excl)
 	e["incl"], e["limit"], e["api"] = r.incl, r.limit, r.api
+}
+
+// last resort: a listing that hangs inside a real store. The event is recorded
+// with an error (which no specification admits) and the driver stops.
+func guarded(w *tr.Writer, e tr.Ev, f func()) string {
+	done := make(chan string, 1)
+	go func() { done <- tr.Guard(f) }()
+	select {
+	case p := <-done:
+		return p
+	case <-time.After(120 * time.Second):
+		c := tr.Copy(e)
+		c["res"], c["last"], c["more"], c["err"] = [][]int{}, []int{}, false, "c19: the call did not return within 120 s"
+		if tr.S(e, "ev") == "walk" {
+			delete(c, "res")
+			delete(c, "last")
+			delete(c, "more")
+			c["pages"], c["end"] = []tr.Ev{}, "hung"
+		}
+		w.Emit(c)
+		w.Close()
+		os.Exit(0)
+	}
+	return ""
 }
 
 func main() {
@@ -356,6 +413,7 @@ func main() {
 				insert(&filer.Entry{FullPath: util.NewFullPath(sib, "ab"), Attr: filer.Attr{Mtime: now, Crtime: now, Mode: 0644}})
 			}
 		}
+		slash = tr.B(rs, "slash")
 		level := "store"
 		if via == "filer" {
 			level = "filer"
@@ -367,7 +425,7 @@ func main() {
 			case "list":
 				r := reqOf(e, via)
 				var p page
-				pan := tr.Guard(func() { p = doList(t, via, dir, r) })
+				pan := guarded(w, e, func() { p = doList(t, via, dir, r) })
 				if pan != "" {
 					w.Emit(tr.Ev{"ev": "panic", "op": e, "msg": pan})
 					continue
@@ -381,7 +439,7 @@ func main() {
 				pages := []tr.Ev{}
 				end, errs := "done", ""
 				cur := r
-				pan := tr.Guard(func() {
+				pan := guarded(w, e, func() {
 					for {
 						if len(pages) >= 12 {
 							end = "budget"
